@@ -96,7 +96,7 @@ def h_equiv5(which: int, x: int, y: int, r0: int, r1: int, r2: int, r3: int, r4:
     """
     pre: 0 <= which < NB
     pre: XLO <= x <= XHI and -1000 <= y <= 1000
-    pre: all(-RMAX <= r <= RMAX for r in (r0, r1, r2, r3, r4, r5, r6, r7))
+    pre: (-RMAX <= r0) & (r0 <= RMAX) & (-RMAX <= r1) & (r1 <= RMAX) & (-RMAX <= r2) & (r2 <= RMAX) & (-RMAX <= r3) & (r3 <= RMAX) & (-RMAX <= r4) & (r4 <= RMAX) & (-RMAX <= r5) & (r5 <= RMAX) & (-RMAX <= r6) & (r6 <= RMAX) & (-RMAX <= r7) & (r7 <= RMAX)
     post: _
     """
     global LAST_DETAIL
